@@ -18,8 +18,8 @@ CLAIMED = {
  "C05": ("GL1-GL4 TK2 TK5 AB2", "edge-dominance and path enumeration in the GlobWalk callback + interprocedural slicing of fsys/pattern/keys over go/ssa",
          "the GlobWalk callback never returns SkipDir/SkipAll; exactly one append per non-hidden nil return; walked FS is os.DirFS(SpokFile.Dir), pattern unchanged, Globs keyed by the expanded pattern; nothing but loop/err/already-expanded(miss, non-empty hit) guards the expansion",
          "not covered: the doublestar matcher, the exact hidden-name predicate, symlinks"),
- "C08": ("PR1-PR4 LX1 LX2 FM6", "typed-syntax-tree object identity checks + lexer state-function graph reachability + loop progress path search",
-         "every ERROR arm reports the tested token's own Value; every illegalToken quotes the line of the token it cites; the scan ends only via an ERROR token or emit(EOF); a task body cannot reach EOF without RBRACE or error; every parser token loop advances and leaves on ERROR. Decides these clauses only, not totality/no-panic over all byte strings",
+ "C08": ("PR1-PR5 LX1 LX2 FM6", "typed-syntax-tree object identity checks + lexer state-function graph reachability + loop progress path search",
+         "every ERROR arm reports the tested token's own Value; every illegalToken quotes the line of the token it cites; the scan ends only via an ERROR token or emit(EOF); a task body cannot reach EOF without RBRACE or error; every parser token loop advances and leaves on ERROR; no line scanner with an unconsulted Err() in lexer/parser/ast. Decides these clauses only, not totality/no-panic over all byte strings",
          "not covered: absence of panics and cursor arithmetic over all inputs (declined, value-level); line numbers within range"),
  "C09": ("SH1 SH2 RT1 RT2 RT3 RT4 GR6 CP8; supporting CP1 CP10", "error-flow discipline check (non-nil edge must end in non-nil error returns) along the whole call chain + loop/guard shape analysis over go/ssa",
          "the interpreter runs with errexit and its exit status reaches Result.Status or the returned error; Ok() methods are Status==0 / conjunctions; every caller of SpokFile.Run examines every result unconditionally and fails on the first not-Ok; errors propagate on every call edge to Runner.Run; main reports on real stderr and exits non-zero; digests recorded only under Ok(); (supporting, shared with C01) a skip requires digest equality and the old digest is only re-instated after a failure",
@@ -39,6 +39,9 @@ CLAIMED = {
  "C15": ("FM1-FM7", "may-be-empty string analysis of every String() return + edge-dominance of the docstring guard + per-iteration path enumeration over go/ssa",
          "no appended node type can print as the empty string; Tree.Write prints every node once in order; a comment becomes a docstring only when the very next token is the task keyword and never across iterations; Task.String prints it before the keyword; one Append per parse-loop iteration; a parsed comment is never dropped on a non-failing path; the parser is handed the file as read",
          "not covered: preservation of comment text and order (value-level)"),
+ "C16": ("TL1 TL2 TL3 LX1 LX3", "shape analysis of the single emission site and of every store into the lexer's cursor fields (origin tracing, necessary-guard dominance, state-graph exits) over go/ssa",
+         "the structural clauses only: emit sends Token{Value: input[start:pos], Pos: start, Line: startLine} and then moves start/startLine to pos/line on every path; start only ever jumps to pos and startLine to line, together; the line counter moves by one and upward only under the necessary guard 'the decoded rune is a newline'; a scan ends only through an ERROR token or directly after emit(EOF); emit(EOF) has the necessary guard pos >= len(input)",
+         "not covered (run-time arithmetic, declined): that only whitespace lies between tokens, the value of pos/line after next/backup/absorb sequences for all inputs, CRLF and multi-byte runes, finiteness of the stream"),
  "C17": ("FD1 FD3 FD4 FD5 FD6 AB2", "loop exit-test classification by backward slicing (directory-dependent, content-independent, dominates the back edge) over go/ssa",
          "the upward walk has a content-independent exit test on every iteration and one that fires at the root; no negative answer from inside the entries loop; the hit is guarded by Name()==NAME and !IsDir() of the same entry; the stop comparison is on the listed directory after its entries were read; the CLI passes cwd/home",
          "not covered: symlinks, permission errors other than being reported; filepath.Dir fixed point at the root is a library fact"),
@@ -57,7 +60,6 @@ NA_FINAL = {
  "C06": "parse fidelity is an equality between a generated structure and the parser's output over all layouts; it is decided by the lexer's run-time cursor arithmetic, no clause is visible in the shape of the code (DESIGN.md section 6)",
  "C07": "format-then-parse equivalence is a round-trip equality over all inputs; the only structural clauses are pinned by existing ast tests and say nothing about re-lexing (DESIGN.md section 6)",
  "C11": "idempotence is an equality of two run-time strings; no structural necessary condition beyond the printer being a pure function (DESIGN.md section 6)",
- "C16": "token tiling/offset/line invariants are run-time arithmetic over pos/start/line/width for all inputs; a typestate rule for the cursor discipline fires on code where no property is affected (DESIGN.md section 6)",
 }
 
 def main():
